@@ -394,3 +394,60 @@ mod tests {
         );
     }
 }
+
+/// Read-only structural snapshots used by the verification harness (/verif), never compiled by default.
+#[cfg(feature = "verif-hooks")]
+mod verif_hooks {
+    use super::*;
+
+    fn snapshot<V>(item: &Item<V>, out: &mut String) {
+        match item {
+            Item::Empty(ignore_case) => out.push_str(&format!("{{\"kind\":\"empty\",\"ic\":{}}}", ignore_case)),
+            Item::Leaf(leaf) => {
+                let mut ids: Vec<&String> = leaf.values.keys().collect();
+                ids.sort();
+                out.push_str(&format!(
+                    "{{\"kind\":\"leaf\",\"re\":{:?},\"ic\":{},\"compiled\":{},\"ids\":{:?}}}",
+                    leaf.regex.original,
+                    leaf.regex.ignore_case,
+                    leaf.regex.compiled.is_some(),
+                    ids
+                ));
+            }
+            Item::Node(node) => {
+                out.push_str(&format!(
+                    "{{\"kind\":\"node\",\"re\":{:?},\"ic\":{},\"compiled\":{},\"children\":[",
+                    node.regex.original,
+                    node.regex.ignore_case,
+                    node.regex.compiled.is_some()
+                ));
+                for (i, child) in node.children.iter().enumerate() {
+                    if i > 0 {
+                        out.push(',');
+                    }
+                    snapshot(child, out);
+                }
+                out.push_str("]}");
+            }
+        }
+    }
+
+    impl<V> RegexTreeMap<V> {
+        /// JSON text describing the tree: node prefixes, children, leaf ids, compiled flags.
+        pub fn verif_snapshot(&self) -> String {
+            let mut out = String::new();
+            snapshot(&self.root, &mut out);
+            out
+        }
+    }
+
+    impl<V> UniqueRegexTreeMap<V> {
+        pub fn verif_snapshot(&self) -> String {
+            self.tree.verif_snapshot()
+        }
+
+        pub fn verif_cached_len(&self) -> usize {
+            self.tree.cached_len()
+        }
+    }
+}
